@@ -121,9 +121,9 @@ CLAIMED = {
         'text': ('Kernel-checked on a transcription of the derive macros\' decision logic over an abstract item syntax: the discriminant token splice (`#this + 1`, with the grouping rule) re-parsed by a '
                  'precedence-climbing parser evaluates to the language rule "previous + 1" for ALL expressions of the grammar (C06_discr; the pre-fix splice is shown wrong); accepted structs and enums '
                  'get exactly the documented wire type (fields in order, skipped omitted, tag = ordinal or discriminant; enums outside the type-dependent-discriminant class F12, C06_enum_refuted gives the witness); '
-                 'init hook runs once on success and never on failure; deserialize_variant(tag) = deserialize on tag::rest. PARTIAL: that the emitted Rust compiles, and bound inference, are validated by generated '
-                 'programs, not proved. ' + CORR + ' ~170 generated items (shapes, skips, discriminant expressions, generics, init hooks, *_with, macro-identifier field names) compiled against /repo per run, '
-                 'encode/decode/truncations/deserialize_variant/init-count vs the model; implementation-only oracle: tag byte == rustc\'s own discriminant. Known findings F10, F11, F12.'),
+                 'init hook runs once on success and never on failure; deserialize_variant(tag) = deserialize on tag::rest; the inferred where-clause equals the documented one as a list, for all three derives (C06_bounds, on a transcription of FindTyParams); '
+                 'the schema derive\'s per-variant inner structs keep exactly the parameters their fields mention and only predicates over kept parameters (C08gen_*, F9 as a theorem; F14 refutation). PARTIAL: that the emitted Rust compiles is validated by generated programs, not proved. ' + CORR + ' ~170 generated items (shapes, skips, discriminant expressions, generics, init hooks, *_with, macro-identifier field names) compiled against /repo per run, '
+                 'encode/decode/truncations/deserialize_variant/init-count vs the model; implementation-only oracle: tag byte == rustc\'s own discriminant. ~600 bound probes at marker types per run. Known findings F10, F11, F12, F14.'),
         'design_ref': 'DESIGN.md section 5 C06; NOTES-derive.md',
         'technique': 'Coq proof on a model of the macro logic + generated-program differential correspondence (cargo build per run)',
     },
